@@ -260,6 +260,18 @@ pub enum GOp {
     StoreTwice(u8, usize),
     /// fail the transaction here
     Panic,
+    /// kernel-level write of Reference(slot s) into field 1 of the HEAP object in slot `into`
+    /// (heap substates may hold references to nodes the frame can see)
+    HeapRef(usize, usize),
+    /// the same with a reference to the STORED internal node owned by entry k of SELF's KV collection
+    /// (visible while that entry is open)
+    HeapRefStored(usize, u8),
+    /// kernel-level write of Reference(stored internal node of entry k) into field 1 of SELF (already global)
+    SelfRefStored(u8),
+    /// system-level: put Reference(stored internal node of entry src) under key k of SELF's KV collection
+    KvRefStored(u8, u8),
+    /// put Reference(stored internal node of entry src) under key k of the HEAP key-value store in slot kv
+    HeapKvRefStored(usize, u8, u8),
 }
 
 #[derive(Default)]
@@ -276,7 +288,7 @@ pub const G_BP: &str = "G";
 
 pub fn g_package() -> PackageDefinition {
     let mut g = BpSpec::new(G_BP);
-    g.fields = 1;
+    g.fields = 2;
     g.kv_collections = 1;
     g.functions = vec![("new", false), ("run", true)];
     package_definition(&[g])
@@ -295,7 +307,7 @@ pub fn invoke<Y: SystemApi<RuntimeError> + KernelNodeApi + KernelSubstateApi<Sys
         "G::new" => {
             let metadata = Metadata::create(api)?;
             let access_rules = RoleAssignment::create(OwnerRole::None, indexmap!(), api)?;
-            let node_id = api.new_simple_object(G_BP, indexmap!(0u8 => FieldValue::new(&unit_value())))?;
+            let node_id = api.new_simple_object(G_BP, indexmap!(0u8 => FieldValue::new(&unit_value()), 1u8 => FieldValue::new(&unit_value())))?;
             let addr = api.globalize(
                 node_id,
                 indexmap!(
@@ -342,7 +354,7 @@ fn g_step<Y: SystemApi<RuntimeError> + KernelNodeApi + KernelSubstateApi<SystemL
     let key = |k: u8| scrypto_encode(&k).unwrap();
     match op {
         GOp::NewObj(s) => {
-            let id = api.new_simple_object(G_BP, indexmap!(0u8 => FieldValue::new(&unit_value())))?;
+            let id = api.new_simple_object(G_BP, indexmap!(0u8 => FieldValue::new(&unit_value()), 1u8 => FieldValue::new(&unit_value())))?;
             slots.insert(*s, id);
         }
         GOp::NewKv(s) => {
@@ -434,8 +446,68 @@ fn g_step<Y: SystemApi<RuntimeError> + KernelNodeApi + KernelSubstateApi<SystemL
         GOp::Panic => {
             api.panic("half-way".to_string())?;
         }
+        GOp::HeapRef(into, s) => {
+            let parent = slot(slots, *into)?;
+            let target = slot(slots, *s)?;
+            write_ref_field(api, &parent, target)?;
+        }
+        GOp::HeapRefStored(into, k) => {
+            let parent = slot(slots, *into)?;
+            let (h, target) = open_stored_child(api, *k)?;
+            write_ref_field(api, &parent, target)?;
+            api.key_value_entry_close(h)?;
+        }
+        GOp::SelfRefStored(k) => {
+            let me = api.actor_get_node_id(ACTOR_REF_SELF)?;
+            let (h, target) = open_stored_child(api, *k)?;
+            write_ref_field(api, &me, target)?;
+            api.key_value_entry_close(h)?;
+        }
+        GOp::KvRefStored(k, src) => {
+            let (h, target) = open_stored_child(api, *src)?;
+            let r = (|| {
+                let h2 = api.actor_open_key_value_entry(ACTOR_STATE_SELF, 0, &key(*k), LockFlags::MUTABLE)?;
+                api.key_value_entry_set(h2, scrypto_encode(&Reference(target)).unwrap())?;
+                api.key_value_entry_close(h2)
+            })();
+            r?;
+            api.key_value_entry_close(h)?;
+        }
+        GOp::HeapKvRefStored(kv, k, src) => {
+            let store = slot(slots, *kv)?;
+            let (h, target) = open_stored_child(api, *src)?;
+            let r = (|| {
+                let h2 = api.key_value_store_open_entry(&store, &key(*k), LockFlags::MUTABLE)?;
+                api.key_value_entry_set(h2, scrypto_encode(&Reference(target)).unwrap())?;
+                api.key_value_entry_close(h2)
+            })();
+            r?;
+            api.key_value_entry_close(h)?;
+        }
     }
     Ok(())
+}
+
+/// opens entry k of SELF's KV collection (it must own a node) and returns the handle and the owned node;
+/// the node is visible to the frame while the handle is open
+fn open_stored_child<Y: SystemApi<RuntimeError>>(api: &mut Y, k: u8) -> Result<(KeyValueEntryHandle, NodeId), RuntimeError> {
+    let h = api.actor_open_key_value_entry(ACTOR_STATE_SELF, 0, &scrypto_encode(&k).unwrap(), LockFlags::read_only())?;
+    let raw = api.key_value_entry_get(h)?;
+    match scrypto_decode::<Option<Own>>(&raw) {
+        Ok(Some(o)) => Ok((h, o.0)),
+        _ => {
+            api.key_value_entry_close(h)?;
+            Err(RuntimeError::ApplicationError(ApplicationError::PanicMessage("entry owns nothing".into())))
+        }
+    }
+}
+
+/// kernel-level write of Reference(target) into field 1 of `node` (no system-level payload validation)
+fn write_ref_field<Y: KernelSubstateApi<SystemLockData>>(api: &mut Y, node: &NodeId, target: NodeId) -> Result<(), RuntimeError> {
+    let h = api.kernel_open_substate(node, MAIN_BASE_PARTITION, &SubstateKey::Field(1), LockFlags::MUTABLE, SystemLockData::default())?;
+    let v = FieldSubstate::new_unlocked_field(Reference(target));
+    api.kernel_write_substate(h, IndexedScryptoValue::from_typed(&v))?;
+    api.kernel_close_substate(h)
 }
 
 fn random_gops(rng: &mut StdRng) -> Vec<GOp> {
@@ -579,6 +651,9 @@ fn history(args: &Args) {
         // the kernel/system at least once, independent of the seed (action 99; the repository's checkers
         // run after each of them)
         let mut todo: Vec<u32> = vec![0, 0, 1, 1, 2];
+        if run == 0 {
+            native_catalogue(&mut ledger, &mut log, &mut accounts, &mut resources, &mut outcomes);
+        }
         let mut catalogue: Vec<Vec<GOp>> = if run == 0 { catalogue_programs() } else { vec![] };
         catalogue.reverse();
         for _ in 0..catalogue.len() {
@@ -702,6 +777,96 @@ fn history(args: &Args) {
     log.out.flush();
 }
 
+/// One instance of EVERY native global blueprint (and through them vaults of both kinds and key-value
+/// stores), each in its own transaction, logged and checked like every other commit: so that the
+/// entity-type table of Graph.tla is exercised for every row, independent of seed and tier.
+fn native_catalogue(
+    ledger: &mut crate::limits::Ledger,
+    log: &mut GraphLogger,
+    accounts: &mut Vec<(Secp256k1PublicKey, ComponentAddress)>,
+    resources: &mut Vec<ResourceAddress>,
+    outcomes: &mut BTreeMap<String, u64>,
+) {
+    let (pk, _, account) = ledger.new_allocated_account();
+    accounts.push((pk, account));
+    log.commit(ledger.substate_db(), "native:account", "success", true);
+    let proofs = vec![NonFungibleGlobalId::from_public_key(&pk)];
+    let mut run = |ledger: &mut crate::limits::Ledger, log: &mut GraphLogger, label: &str, m: TransactionManifestV1, proofs: Vec<NonFungibleGlobalId>| -> TransactionReceipt {
+        let r = ledger.execute_manifest(m, proofs);
+        let (status, class) = receipt_outcome(&r);
+        *outcomes.entry(format!("native:{}:{}:{}", label, status, class)).or_default() += 1;
+        if matches!(r.result, TransactionResult::Commit(_)) {
+            log.commit(ledger.substate_db(), &format!("native:{}", label), &status, true);
+        }
+        r
+    };
+    // fungible resources (3) and a non-fungible one, minted into the account (vaults of both kinds)
+    let mut fungibles = vec![];
+    for i in 0..3u8 {
+        let r = run(ledger, log, "fungible_resource",
+            ManifestBuilder::new().lock_fee_from_faucet()
+                .create_fungible_resource(OwnerRole::None, true, 18 - i, FungibleResourceRoles::default(), metadata!(), Some(dec!(100)))
+                .try_deposit_entire_worktop_or_abort(account, None).build(), vec![]);
+        if let TransactionResult::Commit(c) = &r.result {
+            fungibles.extend(c.new_resource_addresses().iter().cloned());
+        }
+    }
+    resources.extend(fungibles.iter().cloned());
+    let nf = ledger.create_non_fungible_resource(account);
+    resources.push(nf);
+    log.commit(ledger.substate_db(), "native:non_fungible_resource", "success", true);
+    // identity, preallocated identity (instantiated by its first method call), preallocated ed25519 account
+    run(ledger, log, "identity", ManifestBuilder::new().lock_fee_from_faucet().create_identity_advanced(OwnerRole::None).build(), vec![]);
+    let ipk = Secp256k1PrivateKey::from_u64(777).unwrap().public_key();
+    let vid = ComponentAddress::preallocated_identity_from_public_key(&ipk);
+    run(ledger, log, "preallocated_identity",
+        ManifestBuilder::new().lock_fee_from_faucet().call_method(vid, IDENTITY_SECURIFY_IDENT, manifest_args!())
+            .try_deposit_entire_worktop_or_abort(account, None).build(),
+        vec![NonFungibleGlobalId::from_public_key(&ipk)]);
+    let epk = Ed25519PrivateKey::from_u64(778).unwrap().public_key();
+    let eid = ComponentAddress::preallocated_identity_from_public_key(&epk);
+    run(ledger, log, "preallocated_identity_ed25519",
+        ManifestBuilder::new().lock_fee_from_faucet().call_method(eid, IDENTITY_SECURIFY_IDENT, manifest_args!())
+            .try_deposit_entire_worktop_or_abort(account, None).build(),
+        vec![NonFungibleGlobalId::from_public_key(&epk)]);
+    let eacc = ComponentAddress::preallocated_account_from_public_key(&epk);
+    run(ledger, log, "preallocated_account_ed25519",
+        ManifestBuilder::new().lock_fee_from_faucet().get_free_xrd_from_faucet().try_deposit_entire_worktop_or_abort(eacc, None).build(), vec![]);
+    let sacc = ComponentAddress::preallocated_account_from_public_key(&ipk);
+    run(ledger, log, "preallocated_account_secp256k1",
+        ManifestBuilder::new().lock_fee_from_faucet().get_free_xrd_from_faucet().try_deposit_entire_worktop_or_abort(sacc, None).build(), vec![]);
+    // validator
+    run(ledger, log, "validator",
+        ManifestBuilder::new().lock_fee_from_faucet().get_free_xrd_from_faucet()
+            .take_from_worktop(XRD, *DEFAULT_VALIDATOR_XRD_COST, "fee")
+            .create_validator(Secp256k1PrivateKey::from_u64(779).unwrap().public_key(), Decimal::ONE, "fee")
+            .try_deposit_entire_worktop_or_abort(account, None).build(), vec![]);
+    // access controller
+    run(ledger, log, "access_controller",
+        ManifestBuilder::new().lock_fee_from_faucet().get_free_xrd_from_faucet()
+            .take_from_worktop(XRD, dec!(1), "asset")
+            .create_access_controller("asset", rule!(allow_all), rule!(allow_all), rule!(allow_all), Some(1))
+            .try_deposit_entire_worktop_or_abort(account, None).build(), vec![]);
+    // pools
+    if fungibles.len() == 3 {
+        run(ledger, log, "one_resource_pool",
+            ManifestBuilder::new().lock_fee_from_faucet().call_function(POOL_PACKAGE, ONE_RESOURCE_POOL_BLUEPRINT, ONE_RESOURCE_POOL_INSTANTIATE_IDENT,
+                OneResourcePoolInstantiateManifestInput { resource_address: fungibles[0].into(), pool_manager_rule: rule!(allow_all).into(), owner_role: OwnerRole::None.into(), address_reservation: None }).build(), vec![]);
+        run(ledger, log, "two_resource_pool",
+            ManifestBuilder::new().lock_fee_from_faucet().call_function(POOL_PACKAGE, TWO_RESOURCE_POOL_BLUEPRINT, TWO_RESOURCE_POOL_INSTANTIATE_IDENT,
+                TwoResourcePoolInstantiateManifestInput { resource_addresses: (fungibles[0].into(), fungibles[1].into()), pool_manager_rule: rule!(allow_all).into(), owner_role: OwnerRole::None.into(), address_reservation: None }).build(), vec![]);
+        run(ledger, log, "multi_resource_pool",
+            ManifestBuilder::new().lock_fee_from_faucet().call_function(POOL_PACKAGE, MULTI_RESOURCE_POOL_BLUEPRINT, MULTI_RESOURCE_POOL_INSTANTIATE_IDENT,
+                MultiResourcePoolInstantiateManifestInput { resource_addresses: indexset!(fungibles[0].into(), fungibles[1].into(), fungibles[2].into()), pool_manager_rule: rule!(allow_all).into(), owner_role: OwnerRole::None.into(), address_reservation: None }).build(), vec![]);
+    }
+    // account locker
+    run(ledger, log, "account_locker",
+        ManifestBuilder::new().lock_fee_from_faucet().call_function(LOCKER_PACKAGE, ACCOUNT_LOCKER_BLUEPRINT, ACCOUNT_LOCKER_INSTANTIATE_SIMPLE_IDENT,
+            AccountLockerInstantiateSimpleManifestInput { allow_recover: false })
+            .try_deposit_entire_worktop_or_abort(account, None).build(), vec![]);
+    let _ = proofs;
+}
+
 /// Fixed programs for one G component (executed in this order, the state accumulates): every node
 /// operation in a transaction that succeeds, and every way a transaction is refused half-way.
 fn catalogue_programs() -> Vec<Vec<GOp>> {
@@ -732,6 +897,25 @@ fn catalogue_programs() -> Vec<Vec<GOp>> {
         vec![NewKv(0), NewKv(1), PutInKv(0, 1, 1), StoreInKv(14, 0)],      // KV store inside a KV store
         vec![NewObj(0), NewKv(1), Nest(0, 1), StoreInKv(15, 0)],           // object that owns a KV store
         vec![NewObj(0), NewObj(1), StoreInKv(16, 0), StoreInKv(17, 1), StoreRef(18, 4)], // several stores in one transaction
+        // --- every way a reference to a NON-global node could reach the store (all must be refused) ---
+        // (entries 1 / 5 / 2 of this component own an object / a vault / a key-value store since the programs above)
+        vec![NewObj(0), HeapRefStored(0, 1), Globalize(0)],                // globalize an object that references a stored internal object
+        vec![NewObj(0), HeapRefStored(0, 5), Globalize(0)],                // ... a vault inside this component
+        vec![NewObj(0), HeapRefStored(0, 2), Globalize(0)],                // ... a key-value store inside this component
+        vec![NewObj(0), HeapRefStored(0, 1), StoreInKv(20, 0)],            // move such an object into a KV entry of a global component
+        vec![NewObj(0), HeapRefStored(0, 5), StoreInField(0)],             // ... into its field
+        vec![NewObj(0), NewObj(1), HeapRefStored(1, 1), Nest(0, 1), Globalize(0)], // the reference sits in a child of the globalized object
+        vec![NewKv(0), NewObj(1), HeapRefStored(1, 1), PutInKv(0, 0, 1), StoreInKv(21, 0)], // ... inside a KV store that is moved
+        vec![NewObj(0), NewObj(1), HeapRef(0, 1), Globalize(0), Drop(1)],   // reference to a heap sibling, then globalize
+        vec![NewObj(0), NewObj(1), HeapRef(0, 1), Globalize(0), StoreInKv(22, 1)], // ... and store the sibling
+        vec![NewObj(0), NewObj(1), HeapRef(0, 1), Nest(0, 1), Globalize(0)], // reference to its own child
+        vec![NewObj(0), NewObj(1), HeapRef(0, 1), StoreInKv(23, 0), StoreInKv(24, 1)], // both stored
+        vec![SelfRefStored(1)],                                            // kernel-level write into a field of the global component
+        vec![SelfRefStored(5)],
+        vec![KvRefStored(25, 1)],                                          // system-level write into its KV entry
+        vec![KvRefStored(26, 5)],
+        vec![NewKv(0), HeapKvRefStored(0, 0, 1), StoreInKv(27, 0)],        // a heap KV store holding such a reference, then moved
+        vec![NewObj(0), HeapRefStored(0, 1), Drop(0)],                     // harmless: the referencing object never leaves the heap
     ]
 }
 
